@@ -38,6 +38,14 @@ def moveToHel : List (K × K) → List (K × K)
   | [] => []
   | (m0, x0) :: r => (m0, Scalar.zero) :: r.map (fun p => (p.1, p.2 - x0))
 
+/-- what `reb_simulation_move_to_hel` does to the coordinates of one (first or second order,
+    non-test-particle) variational configuration.  As found (tools.c:143 "Variational particles
+    will not be affected") nothing; with fixes/C20-move-to-hel-variations.diff the variation of
+    particle 0 is subtracted from the others and set to `0.` — the derivative of `x_i − x_0`. -/
+def moveToHelVar (repaired : Bool) : List K → List K
+  | [] => []
+  | dx0 :: r => if repaired then Scalar.zero :: r.map (fun dx => dx - dx0) else dx0 :: r
+
 /-! ### first order variational shift (tools.c:278-314) -/
 
 /-- one row of a first-order configuration: real `(m, x)` and variational `(dm, dx)` -/
